@@ -104,14 +104,31 @@ Proof.
 Qed.
 Print Assumptions C13_prefix_statement_refuted.
 
-Theorem C13_poll_limit_refuted :
-  log_ok 0 Lpoll = true /\
-  a_max (r_ap (s_rep (run 0 [EDeliver (poll Lpoll 1) None]))) = 100 /\
-  nth_error (s_applied (run 0 poll_sched)) 100 = Some (mkput 101 122 9) /\
-  nth_error Lpoll 100 = Some (mkput 100 117 2) /\
-  forall n, s_applied (run 0 poll_sched) <> firstn n Lpoll.
-Proof. exact poll_limit_refuted. Qed.
-Print Assumptions C13_poll_limit_refuted.
+(* the refutation through the primary's own fetch policy (flat cut at 100 entries) is history
+   since /repo f62340e: ReplProofs.BeforeFixes.poll_limit_refuted; what holds now: *)
+Theorem C13_fetch_aligned : forall start L from, log_ok start L = true ->
+  exists P Q, L = P ++ fetch L from ++ Q /\ bnd P (fetch L from ++ Q) /\ bnd (P ++ fetch L from) Q.
+Proof. exact fetch_aligned. Qed.
+Print Assumptions C13_fetch_aligned.
+
+Theorem C13_prefix_polls : forall start L evs, start + 2 < U64 -> log_ok start L = true ->
+  Forall (fun ev => match ev with
+                    | EDeliver es _ => exists from, es = poll L from
+                    | EReset => True
+                    | ERestart => False
+                    end) evs ->
+  let s := run start evs in
+  exists n, s_applied s = firstn n L /\
+    a_max (r_ap (s_rep s)) <= gs start (firstn n L) /\
+    forall e, In e (skipn n L) -> a_max (r_ap (s_rep s)) < w_seq e.
+Proof. exact prefix_polls. Qed.
+Print Assumptions C13_prefix_polls.
+
+(* no applier that reports a sequence number can handle a delivery cut inside a transaction *)
+Theorem C13_cut_indistinguishable : forall report : list (list pentry) -> N,
+  ~ (report [seg Lone 0 1] = 1 /\ report [seg Ltwo 0 1] < 1).
+Proof. exact cut_indistinguishable. Qed.
+Print Assumptions C13_cut_indistinguishable.
 
 Theorem C13_equal_payload_refuted :
   log_ok 0 Laba = true /\
